@@ -252,10 +252,11 @@ Proof.
   2:{ now rewrite (m_error_no_effect uid0 l st o code Ec). }
   - destruct o; revert Ec; cbn [mstep]; cbv zeta.
     + (* create *)
-      destruct (name_eqb (norm n) INBOX) eqn:En; [cbn; discriminate|]. apply name_eqb_neq in En.
-      destruct (lsplit l (norm n)) as [parts|] eqn:El; [|cbn; discriminate].
+      destruct (create_name n) as [n'|k] eqn:Ecn; [|cbn; discriminate].
+      pose proof (create_name_inl _ _ Ecn) as En.
+      destruct (lsplit l n') as [parts|] eqn:El; [|cbn; discriminate].
       destruct (negb (ancestors_ok st parts)); [cbn; discriminate|].
-      destruct (amem (norm n) (x_folders st)); [cbn; discriminate|].
+      destruct (amem n' (x_folders st)); [cbn; discriminate|].
       destruct (negb (parent_ok l st parts)); [cbn; discriminate|]. intros _.
       cbn [fst x_with]. intros k Hk. cbn [x_folders] in Hk. apply aset_keys_incl in Hk as [->|Hk]; [|auto].
       destruct (lsplit_Some _ _ _ El En) as [Hp ->]. exact Hp.
@@ -266,7 +267,8 @@ Proof.
       destruct l; [|destruct (has_child_folder st p); [cbn; discriminate|]]; intros _;
         cbn [fst x_with]; intros k Hk; cbn [x_folders] in Hk; apply adel_keys_incl in Hk; auto.
     + (* rename *)
-      destruct (name_eqb (norm b) INBOX) eqn:Eb; [cbn; discriminate|]. apply name_eqb_neq in Eb.
+      destruct (rename_dest b) as [b'|k] eqn:Erd; [|cbn; discriminate].
+      destruct (rename_dest_inl _ _ Erd) as [Eb ->].
       destruct (name_eqb (norm a) INBOX) eqn:Ea; [cbn; discriminate|]. apply name_eqb_neq in Ea.
       destruct (starts_with (norm a ++ [DELIM]) (norm b)); [cbn; discriminate|].
       destruct (tget (x_tree st) (norm a)); [|cbn; discriminate].
@@ -292,7 +294,8 @@ Proof.
       * intros _. cbn [fst x_with]. intros k Hk. cbn [x_folders] in Hk. auto.
       * destruct (amem (norm a) f1); [|cbn; discriminate]. intros _.
         cbn [fst x_with]. intros k Hk. cbn [x_folders] in Hk. auto.
-    + destruct (lsplit l (norm n)); intros _; cbn [fst]; intros k Hk; cbn [x_folders] in Hk; auto.
+    + destruct (inbox_case_bad (norm n)); [intros _; exact Hv|].
+      destruct (lsplit l (norm n)); intros _; cbn [fst]; intros k Hk; cbn [x_folders] in Hk; auto.
     + destruct (lsplit l (norm n)); intros _; cbn [fst]; intros k Hk; cbn [x_folders] in Hk; auto.
     + intros _. exact Hv.
     + intros _. exact Hv.
@@ -309,12 +312,14 @@ Proof.
   - (* CExc: the failing os.rename of the fs layout, after the superiors were created *)
     destruct o; revert Ec; cbn [mstep]; cbv zeta;
       try (repeat match goal with
+                  | |- context [match create_name ?n with _ => _ end] => destruct (create_name n)
                   | |- context [if ?c then _ else _] => destruct c
                   | |- context [match lsplit ?l ?n with _ => _ end] => destruct (lsplit l n)
                   | |- context [match x_get ?l ?s ?n with _ => _ end] => destruct (x_get l s n)
                   | |- context [match l with _ => _ end] => destruct l
                   end; unfold list_out; cbn; discriminate).
-    + destruct (name_eqb (norm b) INBOX) eqn:Eb; [cbn; discriminate|]. apply name_eqb_neq in Eb.
+    + destruct (rename_dest b) as [b'|k] eqn:Erd; [|cbn; discriminate].
+      destruct (rename_dest_inl _ _ Erd) as [Eb ->].
       destruct (name_eqb (norm a) INBOX); [cbn; discriminate|].
       destruct (starts_with (norm a ++ [DELIM]) (norm b)); [cbn; discriminate|].
       destruct (tget (x_tree st) (norm a)); [|cbn; discriminate].
@@ -354,8 +359,9 @@ Lemma anchors_valid l root st c p : fvalid l st -> In p (paths_touched l root st
 Proof.
   intros Hv. unfold paths_touched. destruct c; cbn [anchors]; cbv zeta.
   - (* create *)
-    destruct (name_eqb (norm n) INBOX) eqn:En; [cbn; tauto|]. apply name_eqb_neq in En.
-    destruct (lsplit l (norm n)) as [parts|] eqn:El; [|cbn; tauto].
+    destruct (create_name n) as [n'|k] eqn:Ecn; [|cbn; tauto].
+    pose proof (create_name_inl _ _ Ecn) as En.
+    destruct (lsplit l n') as [parts|] eqn:El; [|cbn; tauto].
     destruct (lsplit_Some _ _ _ El En) as [Hp _].
     destruct (checked_prefixes l root st parts (seq 1 (length parts - 2))) as [pre okk] eqn:Ecp.
     assert (Hpre : forall q, In q pre -> exists parts0, vparts l parts0 /\ q = get_path l root parts0).
@@ -371,10 +377,12 @@ Proof.
     destruct l; [contradiction|]. apply in_map_iff in H as ([k v] & <- & Hk). apply filter_In in Hk as [Hk _].
     exists (split k). split; [|reflexivity]. apply Hv. apply in_map_iff. exists (k, v). auto.
   - (* rename *)
-    destruct (name_eqb (norm b) INBOX || name_eqb (norm a) INBOX || starts_with (norm a ++ [DELIM]) (norm b)) eqn:Eg;
+    destruct (rename_dest b) as [b'|k] eqn:Erd; [|cbn; tauto].
+    destruct (rename_dest_inl _ _ Erd) as [Eb ->].
+    destruct (name_eqb (norm a) INBOX || starts_with (norm a ++ [DELIM]) (norm b)) eqn:Eg;
       [cbn; tauto|].
-    apply orb_false_iff in Eg as [Eg _]. apply orb_false_iff in Eg as [Eb Ea].
-    apply name_eqb_neq in Ea, Eb.
+    apply orb_false_iff in Eg as [Ea _].
+    apply name_eqb_neq in Ea.
     assert (Hfl : forall q, In q (folder_paths l root st ++ []) ->
                             exists parts, vparts l parts /\ q = get_path l root parts).
     { intros q Hq. rewrite app_nil_r in Hq. now apply (folder_paths_valid l root st). }
@@ -460,8 +468,9 @@ Theorem rename_targets_inside l rc a0 b0 p : root_ok rc ->
   In p (rename_targets l (root_str rc) a0 b0) -> strictly_inside rc (normpath p).
 Proof.
   intros [Hne HF]. unfold rename_targets.
-  destruct (name_eqb (norm b0) INBOX || name_eqb (norm a0) INBOX) eqn:Eg; [intros []|].
-  apply orb_false_iff in Eg as [Eb Ea]. apply name_eqb_neq in Ea, Eb.
+  destruct (rename_dest b0) as [b'|k] eqn:Erd; [|intros []].
+  destruct (rename_dest_inl _ _ Erd) as [Eb ->].
+  destruct (name_eqb (norm a0) INBOX) eqn:Ea; [intros []|]. apply name_eqb_neq in Ea.
   destruct (lsplit l (norm a0)) as [pa|] eqn:Ela; [|intros []].
   destruct (lsplit l (norm b0)) as [pb|] eqn:Elb; [|intros []].
   destruct (lsplit_Some _ _ _ Ela Ea) as [[Hpa HVa] _]. destruct (lsplit_Some _ _ _ Elb Eb) as [[Hpb HVb] _].
